@@ -100,6 +100,7 @@ impl Sim {
         chain.time_ns = spec.time_ns;
         chain.querier.markers = spec.markers.clone();
         chain.querier.marker_required_attrs = spec.marker_required_attrs.clone();
+        chain.querier.marker_status = spec.marker_status.clone();
         chain.querier.attrs = spec.attrs.clone();
         let mut sim = Sim {
             spec: spec.clone(),
@@ -1286,7 +1287,15 @@ impl Sim {
             let ok = match c {
                 KeyClass::Ask => asks_named.contains(id),
                 KeyClass::Bid => bids_named.contains(id),
-                KeyClass::Singleton => kind == "modify_contract" && id == "contract_info",
+                // the configuration and the version record are what C11/C12 protect; other
+                // auxiliary keys an implementation may keep are not orders and are not judged
+                KeyClass::Singleton => {
+                    if id == "contract_info" {
+                        kind == "modify_contract"
+                    } else {
+                        id != "version_info"
+                    }
+                }
             };
             if !ok {
                 let props: Vec<&str> = if *c == KeyClass::Singleton {
@@ -1430,7 +1439,7 @@ impl Sim {
                     }
                 }
                 Parsed::Bad => bad.push("price_invalid"),
-                Parsed::Odd => {}
+                Parsed::Odd | Parsed::Long => {}
             }
             // C13's consequence: an admitted price times an admitted size is a whole number
             if let Parsed::Ok(p) = dec::parse(&a.price) {
@@ -1517,7 +1526,7 @@ impl Sim {
                     }
                 }
                 Parsed::Bad => bad.push("price_invalid"),
-                Parsed::Odd => {}
+                Parsed::Odd | Parsed::Long => {}
             }
             if !bad.is_empty() {
                 self.flag(
@@ -1531,23 +1540,20 @@ impl Sim {
             // C09 (c): fee still held = original fee scaled by the unspent fraction of the quote
             if b.fee.is_some() && b.quote_amount > 0 {
                 let fee = b.fee_total();
-                if dec::u(fee)
-                    .checked_mul(dec::u(b.quote_amount))
-                    .map(|x| x < dec::pow10(27))
-                    .unwrap_or(false)
-                {
-                    let num = dec::u(fee) * dec::u(b.unspent_quote());
-                    let den = dec::u(b.quote_amount);
-                    let h = dec::to_u128(dec::div_half_up(num, den)).unwrap_or(u128::MAX);
-                    let tie = dec::is_half_tie(num, den);
+                if let Ok(alts) = model::pro_rata_alts(fee, b.unspent_quote(), b.quote_amount) {
+                    let h = alts[0];
+                    let tie = alts.len() > 1;
                     let uf = b.unspent_fee();
-                    let ok = uf == h || (tie && h >= 1 && uf == h - 1);
+                    let ok = alts.contains(&uf);
                     let named = bids_named.contains(id);
                     let mut hh = Fnv::new();
                     hh.str("prorata").u128(fee).u128(b.unspent_quote()).u128(b.quote_amount);
                     self.cov.hit("C09", hh.finish(), named);
                     if tie && named {
                         self.cov.probe("pro_rata_state_on_exact_tie");
+                    }
+                    if fee >= 10u128.pow(18) && named {
+                        self.cov.probe("pro_rata_state_with_fee_of_1e18_or_more");
                     }
                     if !ok {
                         self.flag(
@@ -1563,7 +1569,7 @@ impl Sim {
                                 b.unspent_quote(),
                                 b.quote_amount,
                                 h,
-                                if tie { " (tie: one lower also accepted)" } else { "" }
+                                if tie { " (tie or near-tie: the neighbouring unit is also accepted)" } else { "" }
                             ),
                         );
                     }
